@@ -87,7 +87,8 @@ type recorder struct {
 	// descriptor ledger (C07): descriptors created by the framework and not yet closed
 	owned     map[int]string
 	ledgerOn  bool
-	efdWrites int // writes to a wake-up descriptor (any thread): a task has been queued for a loop
+	poke      string // the harness is calling a method of a connection handle in this situation (e.g. stale-handle)
+	efdWrites int    // writes to a wake-up descriptor (any thread): a task has been queued for a loop
 	canaries  map[int]*net.UDPConn
 
 	// per-connection ground truth for the oracles
@@ -282,6 +283,9 @@ func (r *recorder) checkOwned(c *vunix.Call, fd int, g int64) {
 		if who == "loop" && r.curCall != "" && (name == "sendto" || name == "send") {
 			name += "@" + r.curCall
 		}
+		if who == "ext" && r.poke != "" {
+			name += "@" + r.poke
+		}
 		if who == "loop" && name == "epoll_ctl-del" && r.batchFds[fd] && r.closedInBatch[fd] {
 			// the reactor's stale-event branch: the descriptor had an event in the batch being
 			// processed and was closed (by another connection's callback) earlier in that batch
@@ -321,6 +325,10 @@ func (r *recorder) Before(c *vunix.Call) {
 	case "epoll_ctl":
 		r.checkOwned(c, c.Fd, g)
 		r.checkOwned(c, c.Arg2, g)
+	case "fcntl":
+		if c.Arg == unix.F_DUPFD_CLOEXEC {
+			r.checkOwned(c, c.Fd, g) // Conn.Dup / Engine.Dup duplicate a descriptor the framework owns
+		}
 	}
 	if sf := r.startFault; sf != nil && !r.startFaultHit && c.Name == sf.name && (c.Name != "epoll_ctl" || c.Arg == unix.EPOLL_CTL_ADD) {
 		k := r.counters["start:"+sf.name]
